@@ -120,18 +120,14 @@ Proof. intros IHg Hw Hp. rewrite walk_node_eq, wn_funccall in Hw. rewrite py_nod
     rewrite (eval_EOp _ _ _ _ _ _ _ avals HA). unfold eval_op. rewrite Nb. exact Hp. Qed.
 
 (* ---- every tree *)
-Lemma walk_meaning_size : forall n t, lsize t < n ->
-  (reject_chains c = true \/ no_chain t = true) -> agrees t.
-Proof. induction n as [|n IHn]; intros t Hs G; [lia|].
+Lemma walk_meaning_size : forall n t, lsize t < n -> agrees t.
+Proof. induction n as [|n IHn]; intros t Hs; [lia|].
   destruct t as [tk|d cs|]; [apply agrees_tok| |intros e v Hw; discriminate Hw].
-  assert (Gc : forall x, In x cs -> reject_chains c = true \/ no_chain x = true).
-  { intros x Hx. destruct G as [G|G]; [left; exact G|right; exact (no_chain_child _ _ _ G Hx)]. }
   assert (IHc : forall x, In x cs -> agrees x).
-  { intros x Hx. apply IHn; [pose proof (lsize_child d cs x Hx); lia|exact (Gc x Hx)]. }
+  { intros x Hx. apply IHn. pose proof (lsize_child d cs x Hx). lia. }
   assert (IHg : forall gd gcs x, In (LNode gd gcs) cs -> In x gcs -> agrees x).
   { intros gd gcs x Hg Hx. apply IHn.
-    - pose proof (lsize_child d cs _ Hg). pose proof (lsize_child gd gcs x Hx). lia.
-    - destruct (Gc _ Hg) as [G'|G']; [left; exact G'|right; exact (no_chain_child _ _ _ G' Hx)]. }
+    pose proof (lsize_child d cs _ Hg). pose proof (lsize_child gd gcs x Hx). lia. }
   intros e v Hw Hp. pose proof Hp as Hk. rewrite py_node_eq in Hk. apply py_kinds in Hk. simpl in Hk.
   destruct Hk as [<-|[<-|[<-|[<-|[<-|[<-|[<-|[<-|[<-|[<-|[<-|[<-|[<-|[<-|[<-|[]]]]]]]]]]]]]]]].
   - rewrite walk_node_eq in Hw. rewrite py_node_eq in Hp.
@@ -149,7 +145,7 @@ Proof. induction n as [|n IHn]; intros t Hs G; [lia|].
   - exact (case_bool c dd fsem en true cs e v IHc Hw Hp).
   - exact (case_bool c dd fsem en false cs e v IHc Hw Hp).
   - exact (case_not c dd fsem en cs e v IHc Hw Hp).
-  - exact (case_comparison c dd fsem en cs e v IHc G Hw Hp).
+  - exact (case_comparison c dd fsem en cs e v IHc Hw Hp).
   - apply (case_arith c dd fsem en "arith_expr" cs); [simpl; tauto|exact IHc|exact Hw|exact Hp].
   - apply (case_arith c dd fsem en "term" cs); [simpl; tauto|exact IHc|exact Hw|exact Hp].
   - exact (case_factor c dd fsem en cs e v IHc Hw Hp).
@@ -157,14 +153,12 @@ Proof. induction n as [|n IHn]; intros t Hs G; [lia|].
   - exact (case_funccall cs e v IHg Hw Hp). Qed.
 
 Theorem walk_meaning t e v :
-  (reject_chains c = true \/ no_chain t = true) ->
   walk c dd t = Ok e -> py_meaning fsem en t = Some v -> eval fsem en e = Some v.
-Proof. intros G. exact (walk_meaning_size (S (lsize t)) t (Nat.lt_succ_diag_r _) G e v). Qed.
+Proof. exact (walk_meaning_size (S (lsize t)) t (Nat.lt_succ_diag_r _) e v). Qed.
 
 Theorem parse_tree_meaning t e v :
-  (reject_chains c = true \/ no_chain t = true) ->
   parse_tree c dd t = Ok e -> py_meaning fsem en t = Some v -> eval fsem en e = Some v.
-Proof. unfold parse_tree. intros G H. destruct (walk c dd t) as [e'|] eqn:Wt; [|discriminate H].
+Proof. unfold parse_tree. intros H. destruct (walk c dd t) as [e'|] eqn:Wt; [|discriminate H].
   destruct (is_term e'); [|discriminate H]. inversion H; subst. apply walk_meaning; assumption. Qed.
 
 End Meaning.
